@@ -202,6 +202,65 @@ def tuple_twins(ctx, rng, pf, cfg):
                             {"with_tuple": runs["tuple"][2], "with_list": runs["list"][2]})
 
 
+def restart_scenario(ctx, rng, serial):
+    """The notification pool is stopped while notifications are executing and started again (a server being reconfigured):
+    a notification that then arrives alone is executed once, like any other."""
+    import threading
+    import jsonrpclib.threadpool as tp
+    for (mx, mn) in ((1, 0), (2, 0), (3, 0), (2, 1)):
+        for nbusy in sorted(set((1, min(2, mx)))):
+            serial += 1
+            pool = tp.ThreadPool(mx, mn, timeout=0.01, logname="vfpoolR%d" % serial)
+            pool.start()
+            gate = threading.Event()
+            entered = [0]
+
+            def hold(tok):
+                entered[0] += 1
+                gate.wait(30)
+                return tok
+            fx = dm.Fixture(dm.std_reg("default"), version=rng.choice([2.0, 1.0]), pool=pool, extra={"hold": hold})
+            case = {"config": [fx.version, "default", [mx, mn]], "bclass": "pool-restart", "busy_at_stop": nbusy}
+            try:
+                for i in range(nbusy):
+                    fx.dispatch(json.dumps({"jsonrpc": "2.0", "method": "hold", "params": [i]}))
+                t0 = time.monotonic()
+                while entered[0] < nbusy and time.monotonic() - t0 < 20:
+                    time.sleep(0.002)
+                stopper = threading.Thread(target=pool.stop, name="vf-stopper")
+                stopper.daemon = True
+                stopper.start()
+                time.sleep(0.03)
+                gate.set()
+                stopper.join(60)
+                if entered[0] < nbusy or stopper.is_alive():
+                    ctx.unsure("pool-restart scenario not established (stop() of the notification pool is C11's concern)")
+                    continue
+                pool.start()
+                for n in range(2):
+                    tok = "after-restart-%d" % n
+                    mark = fx.log.mark()
+                    obs = dm.drive(fx, json.dumps({"jsonrpc": "2.0", "method": "echo", "params": [tok]}))
+                    drain(fx, mark, 1)
+                    ran = fx.log.since(mark)
+                    ctx.case(("pool-restart", mx, mn, nbusy, n, fx.version), nontrivial=True)
+                    ctx.count("judged:notification-after-pool-restart")
+                    if obs.raised is not None or obs.output not in ("", None):
+                        ctx.violate("answered-notification:after-pool-restart", dict(case, nth=n),
+                                    {"raised": obs.raised, "output": obs.output})
+                    elif len(ran) != 1:
+                        ctx.violate("invocations:notification-after-pool-restart-ran-%d-time(s):pooled" % len(ran),
+                                    dict(case, nth=n), {"ran": dm.inv_repr(ran)})
+                        break
+            finally:
+                gate.set()
+                st = threading.Thread(target=pool.stop, name="vf-stopper")
+                st.daemon = True
+                st.start()
+                st.join(10)
+    return serial
+
+
 def client_side(ctx, rng):
     import jsonrpclib
     for v in (2.0, 1.0):
@@ -314,6 +373,9 @@ def run(ctx):
     inj.uninstall()
     if ctx.shard == 0:
         client_side(ctx, rng)
+    if ctx.shard == 1 % ctx.nshards:
+        for rep in range(ctx.pick(2, 25)):
+            serial = restart_scenario(ctx, rng, serial)
 
 
 def finalize(m, tier):
